@@ -16,7 +16,7 @@ package state
 //   ep i        GetEpochForBlock(header i)
 //   qall E      for every defined header, every epoch 0..E: qe and qc
 //   dump        both in-memory maps, sorted
-// Every query runs under a 2 s watchdog (observable `timeout`).  When the ranged-over Go map holds
+// Every query runs under a 2 s watchdog (observable `timeout`, the rest of the case prints `skip`).  When the ranged-over Go map holds
 // several entries the answer may legitimately depend on Go's random map order: the query is then
 // repeated and the sorted set of distinct answers is printed (`3/7`).
 
@@ -28,6 +28,7 @@ import (
 	"strings"
 	"sync/atomic"
 	"testing"
+	"time"
 
 	"github.com/ChainSafe/gossamer/dot/telemetry"
 	"github.com/ChainSafe/gossamer/dot/types"
@@ -42,8 +43,38 @@ const (
 	c26WatchMs = 2000
 )
 
-// spinning goroutines left behind by hung queries; after a few the harness stops calling the code
-var c26Timeouts atomic.Int32
+// hung queries seen by this process (patience shrinks after a few) and goroutines that could not be
+// stopped (after a few of those the harness stops calling the code)
+var c26Timeouts, c26Leaked atomic.Int32
+
+// c26Watch runs f under a watchdog.  A hang is the observable `timeout`; the node is then killed
+// (its in-memory block map is emptied, so the spinning loop's next GetHeader fails and it returns) and
+// the rest of the case prints `skip`.
+func (n *c26Node) watch(f func() string) string {
+	ms := c26WatchMs
+	if c26Timeouts.Load() >= 3 {
+		ms = 150
+	}
+	ch := make(chan string, 1)
+	go func() { ch <- vhCatch(f) }()
+	select {
+	case s := <-ch:
+		return s
+	case <-time.After(time.Duration(ms) * time.Millisecond):
+	}
+	c26Timeouts.Add(1)
+	n.dead = true
+	m := n.bs.unfinalisedBlocks
+	m.mutex.Lock()
+	m.mapping = map[common.Hash]*types.Block{}
+	m.mutex.Unlock()
+	select {
+	case <-ch:
+	case <-time.After(2 * time.Second):
+		c26Leaked.Add(1)
+	}
+	return "timeout"
+}
 
 type c26Node struct {
 	db     database.Database
@@ -52,6 +83,7 @@ type c26Node struct {
 	es     *EpochState
 	hdrs   map[int]*types.Header
 	byHash map[common.Hash]int
+	dead   bool
 }
 
 func c26NewNode(epochLen uint64) (*c26Node, error) {
@@ -155,8 +187,8 @@ func (n *c26Node) configOnce(e uint64, h *types.Header) string {
 // c26Query runs one lookup under the watchdog and, when a Go map with several entries was ranged over,
 // repeats it to collect every answer the random iteration order can produce.
 func (n *c26Node) query(config bool, e uint64, h *types.Header) string {
-	if c26Timeouts.Load() >= 3 {
-		return "timeout-abort"
+	if n.dead {
+		return "skip"
 	}
 	once := func() string {
 		if config {
@@ -164,12 +196,8 @@ func (n *c26Node) query(config bool, e uint64, h *types.Header) string {
 		}
 		return n.epochOnce(e, h)
 	}
-	first := vhWithTimeout(c26WatchMs, once)
-	if first == "timeout" {
-		c26Timeouts.Add(1)
-		return first
-	}
-	if strings.HasPrefix(first, "err") || first == "panic" {
+	first := n.watch(once)
+	if first == "timeout" || strings.HasPrefix(first, "err") || first == "panic" {
 		return first
 	}
 	// the answer came out of the inner map of one epoch; only a map that holds the answered value and
@@ -243,6 +271,9 @@ func c26DumpMap[T types.NextEpochData | types.NextConfigDataV1](n *c26Node, m ne
 }
 
 func (n *c26Node) op(f []string) string {
+	if n.dead {
+		return "skip"
+	}
 	arg := func(i int) int {
 		if i >= len(f) {
 			return -1
@@ -315,7 +346,7 @@ func (n *c26Node) op(f []string) string {
 		if len(f) != 2 || h == nil {
 			return "bad-op"
 		}
-		return vhWithTimeout(c26WatchMs, func() string {
+		return n.watch(func() string {
 			e, err := n.es.GetEpochForBlock(h)
 			if err != nil {
 				return "err"
@@ -350,7 +381,7 @@ func (n *c26Node) op(f []string) string {
 }
 
 func c26Run(line string) string {
-	if c26Timeouts.Load() >= 3 {
+	if c26Leaked.Load() >= 3 {
 		return "timeout-abort"
 	}
 	head, body, ok := strings.Cut(line, "|")
